@@ -193,6 +193,52 @@ def case(seq, op, N, live):
     return h
 
 
+def after_mutation_case(seq, op):
+    """The object first performs a real mutation in a proper write context; then the mode
+    events `seq`; then a reader.  The reader must leave the file as the mutation left it
+    (header and table bytes, length), whatever mode the object is in."""
+    def h(I):
+        def P(label, cond, note=""):
+            return I.prove(f"C08.{label}", cond, note)
+        fs = I.fs()
+        tb = I.mod("tdfBlock")
+        Tdf = I.mod("basictdf").Tdf
+        N, live = 3, (16,)
+        model, spec = C.make_prestate(I, fs, "f.tdf", N, live)
+        C.install_recorders(I)
+        tdf = Tdf(fs.path("f.tdf"))
+        with tdf.allow_write() as t:
+            blk, _ = C.opaque_block(I, 11, "m", budget=[spec["total"]])
+            t.add_block(blk)
+        drive(tdf, seq)
+        inside, writable = expected_mode(seq)
+        pre = fs.obs("f.tdf")
+        T = SF.HEADER + SF.ENTRY * N
+        try:
+            if op == "has_events":
+                tdf.has_events
+            elif op == "blocks":
+                tdf.blocks
+            elif op == "len":
+                len(tdf)
+            elif op == "get_block":
+                tdf.get_block(tb.BlockType(16))
+            else:
+                tdf.nBytes
+            exc = None
+        except Exception as e:  # noqa: BLE001
+            exc = e
+        I.observe("exc", type(exc).__name__ if exc else None)
+        if inside:
+            tdf.__exit__(None, None, None)
+        after = fs.obs("f.tdf")
+        I.goal("reader")
+        P("file_length_unchanged.by_reader", after.length == pre.length, f"{op} after a mutation and {''.join(seq) or 'nothing'}")
+        P("header_and_table_bytes_unchanged.by_reader", after.range(0, T) == pre.range(0, T), f"{op} after a mutation and {''.join(seq) or 'nothing'}")
+        P("all_handles_closed_after_exit", fs.open_handles() == 0)
+    return h
+
+
 def equal_block_case(seq, via):
     """The file holds a REAL events block; the forbidden request assigns a block of equal
     content (no decoder recorders: block equality is the library's own)."""
@@ -244,6 +290,9 @@ def instances(tier):
         for via in ("replace", "replace_nocomment", "setter"):
             inside, writable = expected_mode(seq)
             out.append(Instance(f"equal_block.{''.join(seq) or 'fresh'}.{via}", equal_block_case(seq, via), goals=["allowed" if writable else "forbidden"], cost=20))
+    for seq in [(), ("A",), ("E",), ("A", "E"), ("A", "E", "X"), ("A", "G"), ("E", "X", "A")]:
+        for op in (["has_events", "blocks"] if q else ["has_events", "blocks", "len", "get_block", "nBytes"]):
+            out.append(Instance(f"after_mutation.{''.join(seq) or 'fresh'}.{op}", after_mutation_case(seq, op), goals=["reader"], cost=10))
     seqs = sequences(4 if q else 5)
     shapes = [(2, (16,))] + ([] if q else [(3, (16, 5))])
     for N, live in shapes:
